@@ -119,20 +119,30 @@ let verdict case impl =
       end
       else "viol " ^ explain all
     end
-  | ["C"; _serial; _warn; calls; _profile], [toks] ->
+  | ["C"; _serial; warn; calls; _profile], [toks] ->
     (* scripted clock: every value must be exactly compute_next(previous value, reading) *)
     let calls = int_of_shex calls in
     let toks = if toks = "-" then [] else String.split_on_char ',' toks in
     if List.length toks <> calls then "diff shape: expected " ^ string_of_int calls ^ " calls"
     else begin
+      let warnings = warn <> "0" in
+      let panics = ref 0 in
       let rec go k lastv arms = function
-        | [] -> let (a, b, c) = arms in Printf.sprintf "ok ahead=%d plus1=%d preepoch=%d" a b c
+        | [] -> let (a, b, c) = arms in Printf.sprintf "ok ahead=%d plus1=%d preepoch=%d panics=%d" a b c !panics
         | tok :: r ->
           (match String.split_on_char ':' tok with
+           | [rd; "panic"] ->
+             (* the model of the warning branch (overflow checks on) must predict exactly this panic *)
+             let c = if rd = "n" then None else Some (z_of_hex rd) in
+             (match compute_next_checked warnings lastv c with
+              | None -> incr panics; go (k + 1) lastv arms r
+              | Some m -> Printf.sprintf "diff call=%d previous=%s reading=%s panicked, model=%s" k (hex_of_z lastv) rd (hex_of_z m))
            | [rd; v] ->
              let c = if rd = "n" then None else Some (z_of_hex rd) in
              let v = z_of_hex v in
-             let m = compute_next lastv c in
+             (match compute_next_checked warnings lastv c with
+              | None -> Printf.sprintf "diff call=%d previous=%s reading=%s returned=%s, model: overflow panic in the warning branch" k (hex_of_z lastv) rd (hex_of_z v)
+              | Some m ->
              if v = m then
                let (a, b, c3) = arms in
                let arms = (match c with
@@ -141,7 +151,7 @@ let verdict case impl =
                go (k + 1) v arms r
              else if not (Z.ltb lastv v) then
                Printf.sprintf "viol call=%d previous=%s reading=%s returned=%s (not above the previous value)" k (hex_of_z lastv) rd (hex_of_z v)
-             else Printf.sprintf "diff call=%d previous=%s reading=%s returned=%s model=%s" k (hex_of_z lastv) rd (hex_of_z v) (hex_of_z m)
+             else Printf.sprintf "diff call=%d previous=%s reading=%s returned=%s model=%s" k (hex_of_z lastv) rd (hex_of_z v) (hex_of_z m))
            | _ -> "error bad token " ^ tok) in
       go 0 Z0 (0, 0, 0) toks
     end
